@@ -84,6 +84,8 @@ def small_specs() -> st.SearchStrategy[t.Any]:
         ])),
         st.tuples(st.just('ann'), st.just(S('int')), st.lists(tg.COND_NUM, min_size=1, max_size=1).map(tuple)),
         cg.class_specs(sc, max_fields=2, naming=False, hooks=False),
+        # classes with renaming options: their table of input names is built per converter, and a class gets one converter per set of handlers
+        cg.class_specs(sc, max_fields=3, naming=True, hooks=False),
         # fields whose default is the product of a factory (a list / dict / set made per conversion): a converter that keeps one
         # product makes the next answer depend on what the caller did with the previous one
         cg.class_specs(st.one_of(sc, st.tuples(st.just('seq'), st.sampled_from(['List', 'Set', 'Deque']), sc),
